@@ -8,20 +8,20 @@ MANIFEST = {
     "technique": "Coq proof over a hand-written Gallina model of mp4ff fragment building (Create*/Add*/OptimizeTfhdTrun/"
                  "SetTrunDataOffsets/encode layout/AddSampleDefaultValues/GetFullSamples) + differential correspondence "
                  "(extracted OCaml vs the real Go API on op histories) + round-trip search on the implementation",
-    "level_text": "Theorems (coq/c05/C05Theorems.v, all closed under the global context). For ALL sample field values, tfhd contents, flag "
-                  "words and trex: OptimizeTfhdTrun, the trun wire form and AddSampleDefaultValues return exactly the trun's samples "
-                  "(C05_optimize_resolve) and optimisation never changes what the decode side resolves (C05_optimize_preserves_resolve); "
-                  "the pinned text is refuted (C05_optimize_pinned_refuted: stale first-sample-flags, fixed in /repo). For ALL op "
-                  "histories, by induction over the op list: single-track fragments under any of the six add operations keep one "
-                  "traf/one trun holding exactly the accepted samples in order (C05_history_inv_single); multi-track fragments under "
-                  "AddFullSampleToTrack/AddSampleToTrack hold one trun per maximal run of consecutive same-track additions, write-order "
-                  "number = run index, per-track concatenation = samples added to that track in order, unknown ids add nothing "
-                  "(C05_history_inv); mdat = concatenation of the accepted data in op order (C05_history_mdat); metadata-only histories "
-                  "build the same trafs/moof size with lazy size = sum of sizes (C05_lazy_equiv_partial); data offset of single-run "
-                  "fragments = moof size + written mdat header under the int32 guard (C05_offsets_partial). NOT proved, explored only "
-                  "(model correspondence on every data offset + data-offset oracle + encode->decode round-trip search on the real "
-                  "code): data offsets of multi-run fragments, tfdt = first decode time, the byte-level codecs and the end-to-end "
-                  "C05_roundtrip composition.",
+    "level_text": "Theorems (coq/c05/C05Theorems.v, all closed under the global context), for ALL sample field values, flag words, "
+                  "trex contents, extra-box sizes and op histories (induction over the op list): C05_roundtrip / C05_roundtrip_single: "
+                  "for multi-track fragments under any history of AddFullSampleToTrack (unknown ids refused, tracks receiving nothing "
+                  "included) and single-track fragments under AddFullSample/AddFullSampleToTrack, optimisation on or off, any trex: "
+                  "if Encode succeeds, GetFullSamples on the decoded view returns exactly the added full samples of the trex's track "
+                  "(bytes, size, duration, flags, cto, decode time), given Size=len(Data), decode times consistent with durations and "
+                  "the 2 GiB int32 guard; the box codecs are abstracted by the trun wire view (structure level). Components: "
+                  "C05_optimize_resolve, C05_optimize_preserves_resolve (every flag word), C05_optimize_pinned_refuted (stale "
+                  "first-sample-flags, fixed), C05_history_inv(_single) (one trun per maximal run, write-order number = run index, "
+                  "per-track concatenation = added samples), C05_history_mdat, C05_offsets (data offset = moof + written mdat header + "
+                  "sizes of earlier runs; run data placed there; tfdt = first decode time), C05_offsets_partial (single run, all six "
+                  "operations), C05_lazy_equiv_partial (metadata-only histories build the same trafs/moof, lazy size = sum of sizes). "
+                  "NOT proved, explored only (model correspondence + round-trip search on the real code): the byte-level box codecs, "
+                  "both encoders/decoders, lazy and interval data modes end to end, multi-fragment segments.",
     "level_note": "Trusted: Coq kernel, extraction (ExtrOcamlBasic), OCaml/Go glue, generators. The model is a hand transcription tied to "
                   "/repo by differential runs on every check (op outcome classes, write-order numbers, tfdt, mdat bookkeeping, flags and "
                   "defaults after optimisation, all data offsets, sizes, recovered FullSample lists). Box bodies other than "
